@@ -869,3 +869,290 @@ insert_fixed!(insert_str_mod_heap_cap40, 40);
 // composition of the callee contract (verif_ops.rs), the call-protocol obligations and the
 // modular body contract above; `remove_frame_*` checks it end to end for everything except the
 // byte-exact result of the move.
+
+// ---------------------------------------------------------------------------------------
+// retain  (class B: the loop is unwound, text <= RN bytes)
+// ---------------------------------------------------------------------------------------
+
+pub(crate) const RN: usize = 6;
+
+/// every position of the text starts or continues a well-formed scalar (= UTF-8 validity of
+/// a text of at most RN bytes, by walking it)
+fn valid_utf8_bounded(p: *const u8, len: usize) -> bool {
+    let mut pos = 0;
+    let mut k = 0;
+    while k < RN {
+        if pos < len {
+            let w = scalar_width_at(p, len, pos);
+            if w == 0 {
+                return false;
+            }
+            pos += w;
+        }
+        k += 1;
+    }
+    pos == len
+}
+
+static mut R_DECISION: [bool; RN] = [false; RN];
+static mut R_SEEN: [u32; RN] = [0; RN];
+static mut R_CALLS: usize = 0;
+
+fn retain_contract(pre: (Repr, Ghost), modular: bool) {
+    unsafe { A_FAIL = true };
+    let (mut r, g) = pre;
+    kani::assume(g.len <= RN);
+    let tp = text_ptr(&r, &g);
+    kani::assume(valid_utf8_bounded(tp, g.len));
+    // copy of the old text
+    let mut old = [0u8; RN];
+    let mut i = 0;
+    while i < RN {
+        if i < g.len {
+            old[i] = unsafe { *tp.add(i) };
+        }
+        i += 1;
+    }
+    let f = Frame::snapshot(&r, &g);
+    stub_arm(&r, &f);
+    let res = r.retain(|c| {
+        let d: bool = kani::any();
+        unsafe {
+            if R_CALLS < RN {
+                R_DECISION[R_CALLS] = d;
+                R_SEEN[R_CALLS] = c as u32;
+            }
+            R_CALLS += 1;
+        }
+        d
+    });
+    if modular {
+        obl!(unsafe { S_CALLS == 1 }, "retain.calls_ensure_modifiable_once", "C01,C02");
+        obl!(unsafe { S_UNTOUCHED_AT_CALL }, "retain.nothing_written_before_ensure_modifiable", "C02,C05");
+        obl!(res.is_err() == unsafe { S_ERR }, "retain.err_iff_ensure_modifiable_err", "C01,C05");
+        obl!(f.no_alloc_calls(), "retain.no_allocator_call_outside_ensure_modifiable", "C03,C09");
+    }
+    match res {
+        Err(_) => {
+            cov!(true, "retain.err_reachable");
+            obl!(unchanged_after_error(&f, &r), "retain.err_unchanged", "C02,C03,C05");
+            obl!(unsafe { R_CALLS } == 0, "retain.err_before_any_callback", "C05");
+        }
+        Ok(()) => {
+            // expected text: the kept scalars of the old text, in order
+            let mut exp = [0u8; RN];
+            let mut elen = 0;
+            let mut pos = 0;
+            let mut k = 0;
+            let mut seen_ok = true;
+            let op = old.as_ptr();
+            while k < RN {
+                if pos < g.len {
+                    let w = scalar_width_at(op, g.len, pos);
+                    if unsafe { R_SEEN[k] } != scalar_value_at(op, pos, w) {
+                        seen_ok = false;
+                    }
+                    if unsafe { R_DECISION[k] } {
+                        let mut j = 0;
+                        while j < 4 {
+                            if j < w {
+                                exp[elen + j] = old[pos + j];
+                            }
+                            j += 1;
+                        }
+                        elen += w;
+                    }
+                    pos += w;
+                    k += 1;
+                } else {
+                    break;
+                }
+            }
+            cov!(k >= 2 && elen > 0 && elen < g.len, "retain.some_kept_some_dropped");
+            obl!(unsafe { R_CALLS } == k, "retain.predicate_called_once_per_char", "C01");
+            obl!(seen_ok, "retain.predicate_sees_the_chars_in_order", "C01");
+            let h = view(&r);
+            obl!(h.len == elen, "retain.len", "C01");
+            let mut same = true;
+            let mut i = 0;
+            while i < RN {
+                if i < elen && i < h.len && text_at(&r, &h, i) != exp[i] {
+                    same = false;
+                }
+                i += 1;
+            }
+            obl!(same, "retain.text_is_kept_chars_in_order", "C01");
+            obl!(h.kind == K_INLINE || (h.kind == K_HEAP && h.rc == 1), "retain.result_exclusive_and_writable", "C02,C10");
+            obl!(f.static_untouched(), "retain.static_untouched", "C10,C02");
+            if g.kind == K_HEAP && g.rc > 1 {
+                cov!(true, "retain.shared");
+                obl!(f.old_block_intact(g.rc - 1), "retain.shared_old_block_intact", "C02,C03");
+            }
+            if g.kind == K_HEAP && g.rc == 1 {
+                obl!(word0_ptr(&r) == f.ptr && h.cap == g.cap && f.no_alloc_calls(), "retain.in_place_no_alloc_no_move", "C11");
+            }
+            if g.kind == K_INLINE {
+                obl!(h.kind == K_INLINE && f.no_alloc_calls(), "retain.inline_stays_inline", "C09");
+            }
+        }
+    }
+}
+
+// @harness name=retain_mod_inline props=C01,C03,C05,C09 class=B bound="text <= 6 bytes, loop unwound" unwind=18 tier=quick fn=Repr::retain covers=retain.some_kept_some_dropped,retain.err_reachable
+#[kani::proof]
+#[kani::stub(alloc::alloc::alloc, v_alloc)]
+#[kani::stub(alloc::alloc::dealloc, v_dealloc)]
+#[kani::stub(alloc::alloc::realloc, v_realloc)]
+#[kani::stub(Repr::ensure_modifiable, ensure_modifiable_contract_stub)]
+fn retain_mod_inline() {
+    arm_covers();
+    retain_contract(any_inline(), true);
+}
+
+// @harness name=retain_mod_heap_cap6 props=C01,C03,C05,C11 class=B bound="unique heap block of capacity 6, loop unwound" unwind=18 tier=quick fn=Repr::retain
+#[kani::proof]
+#[kani::stub(alloc::alloc::alloc, v_alloc)]
+#[kani::stub(alloc::alloc::dealloc, v_dealloc)]
+#[kani::stub(alloc::alloc::realloc, v_realloc)]
+#[kani::stub(Repr::ensure_modifiable, ensure_modifiable_contract_stub)]
+fn retain_mod_heap_cap6() {
+    let (r, g) = any_heap_fixed(RN);
+    kani::assume(g.rc == 1);
+    retain_contract((r, g), true);
+}
+
+// @harness name=retain_e2e_shared_cap6 props=C01,C02,C03,C05 class=B bound="shared heap block of capacity 6, loop unwound" unwind=18 tier=thorough solver=cadical mem=30 timeout=3000 fn=Repr::retain covers=retain.shared
+#[kani::proof]
+#[kani::stub(alloc::alloc::alloc, v_alloc)]
+#[kani::stub(alloc::alloc::dealloc, v_dealloc)]
+#[kani::stub(alloc::alloc::realloc, v_realloc)]
+fn retain_e2e_shared_cap6() {
+    arm_covers();
+    let (r, g) = any_heap_fixed(RN);
+    kani::assume(g.rc > 1);
+    retain_contract((r, g), false);
+}
+
+// @harness name=retain_e2e_static props=C01,C03,C05,C10 class=B bound="static object of 17..=20 bytes truncated to <= 6, loop unwound" unwind=18 tier=thorough solver=cadical mem=30 timeout=3000 fn=Repr::retain
+#[kani::proof]
+#[kani::stub(alloc::alloc::alloc, v_alloc)]
+#[kani::stub(alloc::alloc::dealloc, v_dealloc)]
+#[kani::stub(alloc::alloc::realloc, v_realloc)]
+fn retain_e2e_static() {
+    retain_contract(any_static(20), false);
+}
+
+// ---------------------------------------------------------------------------------------
+// bad indices: panic exactly when String does, and nothing happened before (DESIGN 3.8)
+// ---------------------------------------------------------------------------------------
+
+fn trap_em(_r: &mut Repr) -> Result<(), ReserveError> {
+    obl!(false, "bad_index.ensure_modifiable_reached_before_index_check", "C07");
+    Ok(())
+}
+fn trap_reserve(_r: &mut Repr, _n: usize) -> Result<(), ReserveError> {
+    obl!(false, "bad_index.reserve_reached_before_index_check", "C07");
+    Ok(())
+}
+unsafe fn trap_set_len(_r: &mut Repr, _n: usize) {
+    obl!(false, "bad_index.set_len_reached_before_index_check", "C07");
+}
+unsafe fn trap_truncate_unchecked(_r: &mut Repr, _n: usize) -> Result<(), ReserveError> {
+    obl!(false, "bad_index.truncate_unchecked_reached_before_index_check", "C07");
+    Ok(())
+}
+fn trap_replace_inner(_r: &mut Repr, _o: Repr) {
+    obl!(false, "bad_index.replace_inner_reached_before_index_check", "C07");
+}
+
+// @harness name=remove_bad_index props=C07,C01 class=U tier=quick big=yes fn=Repr::remove expect_fail="in function repr::Repr::remove$"
+#[kani::proof]
+#[kani::stub(alloc::alloc::alloc, v_alloc)]
+#[kani::stub(alloc::alloc::dealloc, v_dealloc)]
+#[kani::stub(alloc::alloc::realloc, v_realloc)]
+#[kani::stub(Repr::ensure_modifiable, trap_em)]
+#[kani::stub(Repr::set_len, trap_set_len)]
+#[kani::stub(Repr::replace_inner, trap_replace_inner)]
+fn remove_bad_index() {
+    unsafe { A_TRAP = true };
+    let (mut r, g) = any_repr(MAX_CAP);
+    let idx: usize = kani::any();
+    // String::remove panics iff idx >= len or idx is not on a char boundary
+    kani::assume(idx >= g.len || !spec_boundary(&r, &g, idx));
+    let _ = r.remove(idx);
+    obl!(false, "remove.panics_on_bad_index", "C07,C01");
+}
+
+// @harness name=insert_str_bad_index props=C07,C01 class=U tier=quick big=yes fn=Repr::insert_str expect_fail="in function repr::Repr::insert_str$"
+#[kani::proof]
+#[kani::stub(alloc::alloc::alloc, v_alloc)]
+#[kani::stub(alloc::alloc::dealloc, v_dealloc)]
+#[kani::stub(alloc::alloc::realloc, v_realloc)]
+#[kani::stub(Repr::reserve, trap_reserve)]
+#[kani::stub(Repr::set_len, trap_set_len)]
+#[kani::stub(Repr::replace_inner, trap_replace_inner)]
+fn insert_str_bad_index() {
+    unsafe { A_TRAP = true };
+    let (mut r, g) = any_repr(MAX_CAP);
+    let (s, _sp, _n) = any_str(REACH_CAP);
+    let idx: usize = kani::any();
+    // String::insert_str panics iff idx is not a char boundary (which includes idx > len)
+    kani::assume(!spec_boundary(&r, &g, idx));
+    let _ = r.insert_str(idx, s);
+    obl!(false, "insert_str.panics_on_bad_index", "C07,C01");
+}
+
+// @harness name=truncate_bad_index props=C07,C01 class=U tier=quick big=yes fn=Repr::truncate expect_fail="in function repr::Repr::truncate$"
+#[kani::proof]
+#[kani::stub(alloc::alloc::alloc, v_alloc)]
+#[kani::stub(alloc::alloc::dealloc, v_dealloc)]
+#[kani::stub(alloc::alloc::realloc, v_realloc)]
+#[kani::stub(Repr::truncate_unchecked, trap_truncate_unchecked)]
+#[kani::stub(Repr::set_len, trap_set_len)]
+#[kani::stub(Repr::replace_inner, trap_replace_inner)]
+fn truncate_bad_index() {
+    unsafe { A_TRAP = true };
+    let (mut r, g) = any_repr(MAX_CAP);
+    let new_len: usize = kani::any();
+    // String::truncate panics iff new_len < len and new_len is not on a char boundary
+    kani::assume(new_len < g.len && !spec_boundary(&r, &g, new_len));
+    let _ = r.truncate(new_len);
+    obl!(false, "truncate.panics_on_bad_index", "C07,C01");
+}
+
+// the complementary direction (accepts every good index) for remove / insert_str: the
+// panicking asserts are unreachable under String's acceptance condition. For truncate it is
+// part of truncate_contract (any panic there is a failed check).
+// @harness name=remove_good_index props=C07,C01 class=U tier=quick big=yes fn=Repr::remove
+#[kani::proof]
+#[kani::stub(alloc::alloc::alloc, v_alloc)]
+#[kani::stub(alloc::alloc::dealloc, v_dealloc)]
+#[kani::stub(alloc::alloc::realloc, v_realloc)]
+#[kani::stub(Repr::ensure_modifiable, good_index_stop_em)]
+fn remove_good_index() {
+    let (mut r, g) = any_repr(MAX_CAP);
+    let idx: usize = kani::any();
+    kani::assume(idx < g.len && spec_boundary(&r, &g, idx));
+    let _ = r.remove(idx);
+}
+/// the index checks are over when the first callee is reached: stop the path there
+fn good_index_stop_em(_r: &mut Repr) -> Result<(), ReserveError> {
+    Err(ReserveError)
+}
+fn good_index_stop_reserve(_r: &mut Repr, _n: usize) -> Result<(), ReserveError> {
+    Err(ReserveError)
+}
+
+// @harness name=insert_str_good_index props=C07,C01 class=U tier=quick big=yes fn=Repr::insert_str
+#[kani::proof]
+#[kani::stub(alloc::alloc::alloc, v_alloc)]
+#[kani::stub(alloc::alloc::dealloc, v_dealloc)]
+#[kani::stub(alloc::alloc::realloc, v_realloc)]
+#[kani::stub(Repr::reserve, good_index_stop_reserve)]
+fn insert_str_good_index() {
+    let (mut r, g) = any_repr(MAX_CAP);
+    let (s, _sp, _n) = any_str(REACH_CAP);
+    let idx: usize = kani::any();
+    kani::assume(spec_boundary(&r, &g, idx));
+    let _ = r.insert_str(idx, s);
+}
